@@ -2039,7 +2039,7 @@ fn process_dom_node<T: Write>(
                             .into_iter()
                             .filter_map(|n| match n.info {
                                 RenderNodeInfo::ListItem(..) => Some(n),
-                                _ if n.is_shallow_empty() => None,
+                                _ if n.is_deep_empty() => None,
                                 _ => Some(RenderNode::new(RenderNodeInfo::ListItem(vec![n]))),
                             })
                             .collect();
@@ -2055,7 +2055,7 @@ fn process_dom_node<T: Write>(
                             .into_iter()
                             .filter(|n| {
                                 matches!(n.info, RenderNodeInfo::Dt(..) | RenderNodeInfo::Dd(..))
-                                    || !n.is_shallow_empty()
+                                    || !n.is_deep_empty()
                             })
                             .collect();
                         Some(RenderNode::new_styled(Dl(cs), computed))
